@@ -84,3 +84,52 @@ def enclosing_ifs(fi: FuncInfo, node):
         return None
 
     return find(fi.node.body, []) or []
+
+
+def guard_verdict(ctx, fi: FuncInfo, node, env: Dict[str, Any], pe: Optional[PEval] = None):
+    """Is ``node`` (a statement/expression inside ``fi``) reached under ``env``?  Executes the simple assignments that
+    precede it in the enclosing statement lists (the straight-line prefix) and evaluates the chain of enclosing ``if``
+    tests.  Returns True / False, or ('raises', cls)."""
+    pe = pe or PEval(ctx.world)
+    env = dict(env)
+
+    def prefix(stmts):
+        for s in stmts:
+            if s is node or any(x is node for x in ast.walk(s)):
+                return s
+            if isinstance(s, (ast.Assign, ast.AnnAssign)) and not any(isinstance(t, (ast.Attribute, ast.Subscript)) for t in (s.targets if isinstance(s, ast.Assign) else [s.target])):
+                try:
+                    pe.stmt(s, env, fi, 0)
+                except PEvalUnsupported:
+                    pass
+        return None
+
+    try:
+        cur = fi.node.body
+        while True:
+            holder = prefix(cur)
+            if holder is None or holder is node:
+                return True
+            if isinstance(holder, ast.If):
+                if any(x is node for x in ast.walk(holder.test)):
+                    return True
+                v = bool(pe.truth(pe.eval(holder.test, env, fi), holder.test))
+                in_body = any(any(x is node for x in ast.walk(b)) for b in holder.body)
+                if v != in_body:
+                    return False
+                cur = holder.body if in_body else holder.orelse
+                continue
+            nxt = None
+            for fld in ("body", "orelse", "finalbody"):
+                sub = getattr(holder, fld, None)
+                if isinstance(sub, list) and sub and isinstance(sub[0], ast.stmt) and any(any(x is node for x in ast.walk(b)) for b in sub):
+                    nxt = sub
+            if nxt is None and isinstance(holder, ast.Try):
+                for hd in holder.handlers:
+                    if any(any(x is node for x in ast.walk(b)) for b in hd.body):
+                        nxt = hd.body
+            if nxt is None:
+                return True
+            cur = nxt
+    except Raised as r:
+        return ("raises", r.cls)
